@@ -211,7 +211,7 @@ func traceAppends(g *Gate, start AV) (ems []AEmission, bases []AV) {
 			bases = append(bases, a)
 		case *ssa.Call:
 			if b, ok := v.Call.Value.(*ssa.Builtin); ok && b.Name() == "append" {
-				em := AEmission{Act: a.Act, Call: v, RC: a.Act.RC[v.Block()]}
+				em := AEmission{Act: a.Act, Call: v, RC: a.Act.RCAt(v)}
 				if e := a.Act.Env[v]; e != nil && e.Op == "append" && e.Aux == "elems" {
 					em.Elems = e.Args[1:]
 				}
